@@ -37,7 +37,7 @@ ASSUMPTIONS = [
     "WOFF2 glyf/loca/hmtx reconstruction is trusted to fontTools' own reader; transformed tables are compared at content level",
     "derived fields are recomputed only for TrueType-flavoured outputs whose tables were all recompiled with recalcBBoxes=True; composites with scaled or point-matched components are exempt from the bbox recomputation",
 ]
-EXPECTED_PROBES = ["session.saved", "resave", "foreign", "foreign.longloca", "woff2.loca_checked", "metrics.checked.vmtx", "validated.sfnt", "validated.woff", "validated.woff2", "validated.ttc", "derived.checked", "flavour.compared", "dest.unseekable", "padding.4", "woff.metadata"]
+EXPECTED_PROBES = ["derived.cff_hhea_checked", "session.saved", "resave", "foreign", "foreign.longloca", "woff2.loca_checked", "metrics.checked.vmtx", "validated.sfnt", "validated.woff", "validated.woff2", "validated.ttc", "derived.checked", "flavour.compared", "dest.unseekable", "padding.4", "woff.metadata"]
 
 TIERS = {
     "quick": {"budget_s": 600, "determinism_sample": 10, "n": {"save": 2600, "pipe": 500, "ttc": 300, "session": 150}, "minimise_s": 40, "max_minimise": 3},
